@@ -260,6 +260,7 @@ def replay(c):
 
 
 def run(rep):
+    tok.VALIDATE[0] = replay_fn
     b = BOUNDS[rep.tier]
     L = loader.load(("exceptions", "io", "signal", "util"))
     rep.hashes = L.hashes
@@ -297,7 +298,8 @@ def run(rep):
             rep.add_exploration(hn, ex)
             tok.handle_cex(rep, hn, ex, replay_fn, ideal=True)
     for case in ("block shorter than a sample", "block non-positive", "hop longer than block"):
-        ex = explore(reject_harness(L, 16000, case), workers=1)
-        rep.add_exploration("reject[%s]" % case, ex)
-        tok.handle_cex(rep, "reject[%s]" % case, ex, replay_fn)
+        for sr_ in (16000, 10):      # at 10 Hz a longer hop can truncate to the same number of samples as the block
+            ex = explore(reject_harness(L, sr_, case), workers=1)
+            rep.add_exploration("reject[%s,sr=%d]" % (case, sr_), ex)
+            tok.handle_cex(rep, "reject[%s]" % case, ex, replay_fn)
     rep.witness("rejection paths reached", True)
